@@ -117,3 +117,129 @@ class WriteAttributes(Contract):
 
 
 CONTRACTS = [FetchHandleStub, WriteAttributes]
+
+
+class StoredEditsNative(Contract):
+    """Bounded stand-in for assignments on entities that are *already stored* (the sweep above is
+    about one assignment on an abstract entity): repeated re-assignment of a data type's value map
+    and colour map, and sessions that only edit scalar attributes of concatenated drillholes; after
+    every assignment / session a separate reader must see what the writer holds."""
+    target = "geoh5py/io/h5_writer.py::H5Writer.write_value_map"
+    variant = "stored-edits"
+    symbolic = False
+    has_native = True
+    props = ("C03",)
+    bounded_scope = "value map and colour map re-assigned 1-4 times on a stored type (same session and across sessions); concatenated drillholes renamed / re-planned / re-costed in a session that does nothing else (both format versions)"
+
+    def native_cases(self, tier, rng):
+        for n in (1, 2, 3, 4):
+            for same_session in (True, False):
+                yield {"kind": "value-map", "n": n, "same_session": same_session}
+                yield {"kind": "color-map", "n": n, "same_session": same_session}
+        for version in (2.0, 2.1):
+            for attrs in (["name"], ["planning", "cost"], ["name", "end_of_hole"], ["collar"]):
+                yield {"kind": "concatenated-scalars", "version": version, "attrs": attrs}
+
+    def native_check(self, case):
+        import os
+        import shutil
+        import tempfile
+
+        d = tempfile.mkdtemp()
+        try:
+            return getattr(self, "_" + case["kind"].replace("-", "_"))(case, os.path.join(d, "s.geoh5"))
+        finally:
+            shutil.rmtree(d, ignore_errors=True)
+
+    @staticmethod
+    def _maps(path, uid):
+        from geoh5py.workspace import Workspace
+
+        with Workspace(path, mode="r") as ws:
+            t = ws.get_entity(uid)[0].entity_type
+            vm = None if getattr(t, "value_map", None) is None else {int(k): str(v) for k, v in t.value_map.map.items()}
+            cm = None if getattr(t, "color_map", None) is None else np.asarray(t.color_map.values.tolist()).tolist()
+        return vm, cm
+
+    def _value_map(self, case, path):
+        from geoh5py.objects import Points
+        from geoh5py.workspace import Workspace
+
+        with Workspace.create(path) as ws:
+            p = Points.create(ws, vertices=np.zeros((4, 3)))
+            dat = p.add_data({"r": {"values": np.array([1, 2, 3, 1], dtype="uint32"), "type": "referenced", "value_map": {1: "a", 2: "b", 3: "c"}}})
+            uid = dat.uid
+        maps = [{1: f"k{j}a", 2: f"k{j}b", 3: f"k{j}c"} for j in range(case["n"])]
+        if case["same_session"]:
+            with Workspace(path, mode="r+") as ws:
+                for m in maps:
+                    ws.get_entity(uid)[0].entity_type.value_map = dict(m)
+            seen, _ = self._maps(path, uid)
+            want = {0: "Unknown", **maps[-1]}
+            if seen != want:
+                return f"value map assigned {case['n']} times in one session: a later reader sees {seen}, the writer held {want} ({case})"
+            return None
+        for j, m in enumerate(maps):
+            with Workspace(path, mode="r+") as ws:
+                ws.get_entity(uid)[0].entity_type.value_map = dict(m)
+            seen, _ = self._maps(path, uid)
+            want = {0: "Unknown", **m}
+            if seen != want:
+                return f"value map assignment #{j + 1}: a later reader sees {seen}, the writer held {want} ({case})"
+        return None
+
+    def _color_map(self, case, path):
+        from geoh5py.objects import Points
+        from geoh5py.workspace import Workspace
+
+        def cmap(j):
+            return np.c_[np.linspace(0.0, 3.0, 4) + j, np.arange(4) + 10 * j, np.arange(4) * 2, np.arange(4) * 3, np.ones(4) * 255]
+
+        with Workspace.create(path) as ws:
+            p = Points.create(ws, vertices=np.zeros((4, 3)))
+            dat = p.add_data({"f": {"values": np.arange(4.0)}})
+            dat.entity_type.color_map = cmap(9)
+            uid = dat.uid
+        for j in range(case["n"]):
+            with Workspace(path, mode="r+") as ws:
+                t = ws.get_entity(uid)[0].entity_type
+                t.color_map = cmap(j)
+                if case["same_session"] and j + 1 < case["n"]:
+                    t.color_map = cmap(j + 20)
+                    t.color_map = cmap(j)
+            _, seen = self._maps(path, uid)
+            want = [list(map(float, row)) for row in cmap(j).tolist()]
+            got = None if seen is None else np.asarray(seen, dtype=float)
+            if got is not None and got.shape == (5, 4):
+                got = got.T
+            if got is None or got.shape != (4, 5) or not np.allclose(got, np.asarray(want)):
+                return f"colour map assignment #{j + 1}: a later reader sees {seen}, the writer held {want} ({case})"
+        return None
+
+    def _concatenated_scalars(self, case, path):
+        from geoh5py.groups import DrillholeGroup
+        from geoh5py.objects import Drillhole
+        from geoh5py.workspace import Workspace
+
+        with Workspace.create(path, version=case["version"]) as ws:
+            g = DrillholeGroup.create(ws, name="DH")
+            for k in range(2):
+                h = Drillhole.create(ws, name=f"hole_{k}", parent=g, collar=np.r_[float(k), 0.0, 0.0], surveys=np.c_[np.r_[0.0, 10.0], np.zeros(2), np.ones(2) * -90.0])
+                h.add_data({"Au": {"depth": np.array([1.0, 2.0]), "values": np.arange(2.0) + k}})
+        new = {"name": "hole_renamed", "planning": "Ongoing", "cost": 1234.5, "end_of_hole": 77.0, "collar": [5.0, 6.0, 7.0]}
+        with Workspace(path, mode="r+") as ws:  # a session that only edits scalar attributes of a stored hole
+            h = [c for c in ws.get_entity("DH")[0].children if c.name == "hole_1"][0]
+            uid = h.uid
+            for a in case["attrs"]:
+                setattr(h, a, new[a])
+        with Workspace(path, mode="r") as ws:
+            h = ws.get_entity(uid)[0]
+            for a in case["attrs"]:
+                got = getattr(h, a)
+                got = [float(got[k]) for k in ("x", "y", "z")] if a == "collar" else got
+                if got != new[a]:
+                    return f"hole attribute {a}: the writer held {new[a]!r}, a later reader sees {got!r} ({case})"
+        return None
+
+
+CONTRACTS = CONTRACTS + [StoredEditsNative]
